@@ -23,6 +23,7 @@ import (
 	"os"
 	"os/exec"
 	"path/filepath"
+	"regexp"
 	"runtime"
 	"sort"
 	"strconv"
@@ -192,6 +193,7 @@ type vOp struct {
 	start, stop int64
 	cd          Digest
 	name        string
+	scen        bool // first op of a directed scenario (generator bookkeeping only)
 	hook        bool // link only: fire Resolve(name) from testHookBeforeFinalWrite (between verified copy and rename)
 	s           vScript
 }
@@ -723,6 +725,7 @@ func (h *vHist) run(ops []vOp) (results []string, keys map[Digest]bool) {
 		}
 		h.checkAllPresent(i, o)
 		h.checkAcked(i, o)
+		h.checkLinks(i, o, res)
 	}
 	return results, keys
 }
@@ -741,6 +744,42 @@ func (h *vHist) findFold(name string) string {
 		}
 	}
 	return ""
+}
+
+// checkLinks: Links() lists exactly the manifests on disk (driver's own listing), a name just linked is among
+// them, and no two manifests are equal under case folding (names are case-insensitive: Link must reuse the
+// existing spelling).
+func (h *vHist) checkLinks(step int, o vOp, res string) {
+	if o.kind != "link" && o.kind != "unlink" {
+		return
+	}
+	h.out.Count("l2_links_checked")
+	ms, _ := fs.Glob(os.DirFS(h.dir), "manifests/*/*/*/*")
+	var want []string
+	for _, m := range ms {
+		want = append(want, pathToName(m))
+	}
+	var got []string
+	for l, err := range h.c.Links() {
+		if err != nil {
+			got = append(got, "error:"+strings.ReplaceAll(err.Error(), " ", "_"))
+			break
+		}
+		got = append(got, l)
+	}
+	if strings.Join(got, "\x00") != strings.Join(want, "\x00") {
+		h.out.L2("links-differ-from-disk", h.caseLine, fmt.Sprintf("step=%d op=%s Links=%q disk=%q", step, o.kind, got, want))
+	}
+	for i := 1; i < len(ms); i++ {
+		for j := 0; j < i; j++ {
+			if strings.EqualFold(ms[i], ms[j]) {
+				h.out.L2("case-twin-manifests", h.caseLine, fmt.Sprintf("step=%d op=%s %q %q", step, o.kind, ms[j], ms[i]))
+			}
+		}
+	}
+	if o.kind == "link" && res == "ok" && h.findFold(o.name) == "" {
+		h.out.L2("links-differ-from-disk", h.caseLine, fmt.Sprintf("linked-name-not-on-disk step=%d name=%s", step, o.name))
+	}
 }
 
 // linkKey identifies the manifest a name denotes (case-insensitively), or "" for an invalid name.
@@ -872,6 +911,9 @@ func vGenHist(r *zzverif.Rng) []vOp {
 		ops = append(ops, vOp{kind: "import", size: int64(len(c)), s: vMkScript(r, c, zzverif.Pick(r, []string{"exact", "exact1"}), false)},
 			vOp{kind: "get", d: d}, vOp{kind: "link", name: name, d: d}, vOp{kind: "resolve", name: name})
 	}
+	if len(ops) > 0 {
+		ops[0].scen = true
+	}
 	for len(ops) < nops {
 		switch x := r.Intn(100); {
 		case x < 28:
@@ -933,8 +975,25 @@ func vGenHist(r *zzverif.Rng) []vOp {
 	return ops
 }
 
-func vRunHist(t *testing.T, out *zzverif.Out, base string, idx int, caseLine string, ops []vOp) {
-	dir := filepath.Join(base, fmt.Sprintf("h%d", idx))
+// vWeirdDirs: cache directory names with glob metacharacters, spaces, a trailing dot, non-ASCII.  The cache's
+// behaviour must not depend on the PATH of its directory (the model has no such parameter, which is why L1 is exact
+// in these directories too); a share of the histories and the directed scenarios run in them.
+var vWeirdDirs = []string{"models [v2]", "a]b", "st*ar", "q?m", `back\slash`, "with space", "dot.", "üñí-日本語", "[", "{x,y}", "[a-z]*", "-dash", "x[!y]z"}
+
+// vHistDir picks the cache directory of a history from its case seed (so that a replay uses the same one)
+func vHistDir(base string, idx int, cs uint64, ops []vOp) string {
+	scen := len(ops) > 0 && ops[0].scen
+	if cs%5 == 0 || (scen && cs%2 == 0) {
+		return filepath.Join(base, fmt.Sprintf("h%d", idx), vWeirdDirs[int(cs/5%uint64(len(vWeirdDirs)))])
+	}
+	return filepath.Join(base, fmt.Sprintf("h%d", idx))
+}
+
+func vRunHist(t *testing.T, out *zzverif.Out, base string, idx int, caseLine string, ops []vOp, dir string) {
+	if dir != filepath.Join(base, fmt.Sprintf("h%d", idx)) {
+		out.Count("hist_cases_weird_dir")
+		defer os.RemoveAll(filepath.Join(base, fmt.Sprintf("h%d", idx)))
+	}
 	c, err := Open(dir)
 	if err != nil {
 		t.Fatal(err)
@@ -973,6 +1032,8 @@ func vCrashLinkPath(dir string) string { return filepath.Join(dir, "manifests", 
 
 func (cc vCrashCase) spec() string {
 	switch cc.op.kind {
+	case "bigput": // content regenerated in the child from the seed kept in cc.blob
+		return fmt.Sprintf("bigput %s %s %d", cc.init, cc.blob, cc.op.size)
 	case "link": // crash link <Link variant> <manifest init> <blob file state> <digest>
 		return fmt.Sprintf("link %d %s %s %s", zzverif.EnvInt("VERIF_C08_FIXED", 0), cc.init, cc.blob, vHexD(cc.op.d))
 	case "put":
@@ -996,7 +1057,7 @@ func (cc vCrashCase) target() Digest {
 var vCrashKinds = map[string]string{ // model effect kind -> syscalls that implement it on linux
 	"open":   "openat,open,creat",
 	"write":  "write,pwrite64,writev,pwritev",
-	"trunc":  "ftruncate,truncate",
+	"trunc":  "ftruncate,truncate,fallocate",
 	"rename": "rename,renameat,renameat2",
 	"unlink": "unlink,unlinkat",
 }
@@ -1018,6 +1079,10 @@ func TestVerifC08Child(t *testing.T) {
 		o.d, o.size, o.s = vUnhexD(p.next()), p.int(), p.script()
 	case "import":
 		o.size, o.s = p.int(), p.script()
+	case "bigput": // bigput <init> <content seed> <size>: the content is regenerated from the seed
+		seed, _ := strconv.ParseUint(p.next(), 10, 64)
+		content := zzverif.NewRng(seed).Bytes(int(p.int()))
+		o.kind, o.d, o.size, o.s = "put", vDigestOf(content), int64(len(content)), vScript{chunks: [][]byte{content}, end: "eof"}
 	case "link":
 		_, _ = p.next(), p.next() // manifest init (already consumed: variant), blob state: prepared by the parent
 		o.name, o.d = vCrashLinkName, vUnhexD(p.next())
@@ -1057,6 +1122,14 @@ func vCrashRun(t *testing.T, dir string, cc vCrashCase, c *DiskCache, kind strin
 	cmd := exec.Command("strace", "-f", "-qq", "-o", "/dev/null", "-P", path,
 		"-e", "trace="+sys, "-e", fmt.Sprintf("inject=%s:signal=KILL:when=%d", sys, n),
 		os.Args[0], "-test.run=^TestVerifC08Child$", "-test.count=1")
+	if kind == "trace" { // no injection: record every store syscall on the path
+		all := []string{}
+		for _, k := range []string{"open", "write", "trunc", "rename", "unlink"} {
+			all = append(all, vCrashKinds[k])
+		}
+		cmd = exec.Command("strace", "-f", "-qq", "-o", filepath.Join(filepath.Dir(dir), "trace.txt"), "-P", path,
+			"-e", "trace="+strings.Join(all, ","), os.Args[0], "-test.run=^TestVerifC08Child$", "-test.count=1")
+	}
 	tmp := filepath.Join(dir, "tmp")
 	os.MkdirAll(tmp, 0o777)
 	cmd.Env = append(os.Environ(), "VERIF_C08_CHILD="+cc.spec(), "VERIF_C08_DIR="+dir,
@@ -1117,6 +1190,23 @@ func vRunCrash(t *testing.T, out *zzverif.Out, base string, caseLine string, cc 
 	size := cc.op.size
 	out.Count("cases")
 	out.Count("crash_cases_" + cc.op.kind)
+	if cc.op.kind == "put" || cc.op.kind == "chunk" {
+		// the REAL syscall trace of the store: exact L1 against the model's effect list, and the shape predicate
+		c := vPrepare(t, dir, d, cc.init)
+		len0 := int64(0)
+		if cc.init != "absent" {
+			len0 = int64(len(zzverif.Unhex(cc.init)))
+		}
+		shapeSize := size
+		if cc.op.kind == "chunk" {
+			shapeSize = 0 // a chunk write is not a whole-file store: F10-cache; only the L1 on its trace
+		}
+		effs := vTraceCheck(t, out, dir, cc, c, caseLine+" :: trace "+cc.spec(), shapeSize, len0)
+		if len(effs) == 0 {
+			effs = []string{"-"}
+		}
+		out.Case("trace "+cc.spec(), strings.Join(effs, " "))
+	}
 	for _, kind := range []string{"open", "write", "trunc", "rename"} {
 		for n := 1; n < 200; n++ {
 			c := vPrepare(t, dir, d, cc.init)
@@ -1284,6 +1374,222 @@ func vRunCrashLink(t *testing.T, out *zzverif.Out, base string, caseLine string,
 	}
 }
 
+// ---------------------------------------------------------------- real syscall traces of stores
+
+var (
+	vReOpen  = regexp.MustCompile(`^\d+\s+(?:openat\(AT_FDCWD, |open\(|creat\()"[^"]*", ([A-Z_|0-9]+)`)
+	vReWrite = regexp.MustCompile(`^\d+\s+write\(\d+, .*, \d+\)\s+= (\d+)$`)
+	vRePwr   = regexp.MustCompile(`^\d+\s+pwrite64\(\d+, .*, \d+, (\d+)\)\s+= (\d+)$`)
+	vReTrunc = regexp.MustCompile(`^\d+\s+f?truncate\((?:\d+|"[^"]*"), (\d+)\)\s+= 0$`)
+	vReFall  = regexp.MustCompile(`^\d+\s+fallocate\(\d+, ([^,]+), (\d+), (\d+)\)\s+= 0$`)
+	vReRen   = regexp.MustCompile(`^\d+\s+rename(?:at2?)?\(`)
+	vReUnl   = regexp.MustCompile(`^\d+\s+unlink(?:at)?\(.*= 0$`)
+)
+
+// vParseTrace turns the strace log of one store into length effects, rendered like the oracle's `trace` command:
+// o<trunc> w<off>:<n> t<n> u  (sequential write(2)s get their offsets from a per-open position; renames are "r").
+func vParseTrace(t *testing.T, file string) []string {
+	raw, err := os.ReadFile(file)
+	if err != nil {
+		t.Fatal(err)
+	}
+	var effs []string
+	pos := int64(0)
+	for _, line := range strings.Split(strings.TrimSpace(string(raw)), "\n") {
+		switch {
+		case line == "" || strings.Contains(line, "+++ exited") || strings.Contains(line, "--- SIG") || strings.Contains(line, "<detached ...>"):
+		case vReOpen.MatchString(line):
+			flags := vReOpen.FindStringSubmatch(line)[1]
+			if strings.Contains(line, "= -1") || (strings.Contains(flags, "O_RDONLY") && !strings.Contains(flags, "O_CREAT")) {
+				continue // failed open / read-only open: no store effect
+			}
+			pos = 0
+			if strings.Contains(flags, "O_TRUNC") {
+				effs = append(effs, "o1")
+			} else {
+				effs = append(effs, "o0")
+			}
+		case vReWrite.MatchString(line):
+			n, _ := strconv.ParseInt(vReWrite.FindStringSubmatch(line)[1], 10, 64)
+			effs = append(effs, fmt.Sprintf("w%d:%d", pos, n))
+			pos += n
+		case vRePwr.MatchString(line):
+			m := vRePwr.FindStringSubmatch(line)
+			effs = append(effs, fmt.Sprintf("w%s:%s", m[1], m[2]))
+		case vReTrunc.MatchString(line):
+			effs = append(effs, "t"+vReTrunc.FindStringSubmatch(line)[1])
+		case vReFall.MatchString(line):
+			m := vReFall.FindStringSubmatch(line)
+			off, _ := strconv.ParseInt(m[2], 10, 64)
+			ln, _ := strconv.ParseInt(m[3], 10, 64)
+			if !strings.Contains(m[1], "KEEP_SIZE") && !strings.Contains(m[1], "PUNCH") {
+				effs = append(effs, fmt.Sprintf("t%d", off+ln)) // extends the file to off+len (never shrinks; close enough for the shape)
+			}
+		case vReRen.MatchString(line):
+			effs = append(effs, "r")
+		case vReUnl.MatchString(line):
+			effs = append(effs, "u")
+		default:
+			t.Fatalf("verif: cannot parse strace line %q", line)
+		}
+	}
+	return effs
+}
+
+// vNoEarlyFull is the Go twin of the model's `noEarlyFull` (the oracle's `shape` command re-evaluates the Lean one on
+// the same trace; the two answers are compared as an L1 case): after every effect, len = size ⇒ written ≥ size.
+func vNoEarlyFull(size, len0 int64, effs []string) (bool, string) {
+	ln, written := len0, int64(0)
+	for i, e := range effs {
+		switch e[0] {
+		case 'o':
+			if e == "o1" {
+				ln = 0
+			}
+		case 'w':
+			var off, n int64
+			fmt.Sscanf(e, "w%d:%d", &off, &n)
+			if n != 0 && off+n > ln {
+				ln = off + n
+			}
+			written += n
+		case 't':
+			fmt.Sscanf(e, "t%d", &ln)
+		case 'u':
+			ln = 0
+		}
+		if ln == size && written < size {
+			return false, fmt.Sprintf("effect #%d %s brings the file to its final size %d after only %d data bytes", i+1, e, size, written)
+		}
+	}
+	return true, ""
+}
+
+// vTraceCheck runs the store once under strace without injection and evaluates the shape on the real trace.
+// Returns the length effects.
+func vTraceCheck(t *testing.T, out *zzverif.Out, dir string, cc vCrashCase, c *DiskCache, line string, size, len0 int64) []string {
+	if o := vCrashRun(t, dir, cc, c, "trace", 0); o != "survived" {
+		t.Fatalf("trace run did not survive")
+	}
+	effs := vParseTrace(t, filepath.Join(filepath.Dir(dir), "trace.txt"))
+	os.Remove(filepath.Join(filepath.Dir(dir), "trace.txt"))
+	out.Count("trace_runs")
+	out.Add("trace_effects", len(effs))
+	if size > 0 {
+		ok, why := vNoEarlyFull(size, len0, effs)
+		var shown []string
+		for _, e := range effs {
+			if e != "r" {
+				shown = append(shown, e)
+			}
+		}
+		out.Case(fmt.Sprintf("shape %d %d %d %s", size, len0, len(shown), strings.Join(shown, " ")), fmt.Sprint(ok))
+		if !ok {
+			out.L2("trace-shape", line, why)
+		}
+	}
+	return effs
+}
+
+// ---------------------------------------------------------------- large blobs
+
+var vBigSizes = []int{1 << 20, 4<<20 - 1, 4 << 20, 4<<20 + 1, 16 << 20}
+
+// vRunBig: Put of a large blob in a strace-killed child at a few points (every ftruncate/fallocate, the first two
+// writes, a middle one, the last one), L2 only (the oracle protocol carries contents in hex: no L1 for megabytes;
+// the trace shape and the re-hash do not need the model).
+func vRunBig(t *testing.T, out *zzverif.Out, base string, idx int, cs uint64) {
+	r := zzverif.NewRng(cs)
+	size := vBigSizes[idx%len(vBigSizes)]
+	seed := r.U64()
+	content := zzverif.NewRng(seed).Bytes(size)
+	d := vDigestOf(content)
+	init := "absent"
+	if r.Chance(1, 3) {
+		init = zzverif.Hex(r.Bytes(r.Range(1, 64)))
+	}
+	len0 := int64(0)
+	if init != "absent" {
+		len0 = int64(len(zzverif.Unhex(init)))
+	}
+	cc := vCrashCase{init: init, content: content, blob: fmt.Sprint(seed), op: vOp{kind: "bigput", d: d, size: int64(size)}}
+	dir := filepath.Join(base, "crash")
+	defer os.RemoveAll(dir)
+	caseLine := fmt.Sprintf("big seed=%d idx=%d :: bigput %s %d %d", cs, idx, init, seed, size)
+	out.Count("cases")
+	out.Count(fmt.Sprintf("big_cases_size_%d", size))
+	c := vPrepare(t, dir, d, init)
+	effs := vTraceCheck(t, out, dir, cc, c, caseLine, int64(size), len0)
+	if b, _ := os.ReadFile(c.GetFile(d)); !bytes.Equal(b, content) {
+		out.L2("store-ok-not-retrievable", caseLine, "via=bigput untraced-run file differs from content")
+	}
+	nw, nt := 0, 0
+	for _, e := range effs {
+		switch e[0] {
+		case 'w':
+			nw++
+		case 't':
+			nt++
+		}
+	}
+	type kp struct {
+		kind string
+		n    int
+	}
+	var points []kp
+	for i := 1; i <= nt+1; i++ {
+		points = append(points, kp{"trunc", i})
+	}
+	seen := map[int]bool{}
+	for _, n := range []int{1, 2, nw / 2, nw} {
+		if n >= 1 && !seen[n] {
+			seen[n] = true
+			points = append(points, kp{"write", n})
+		}
+	}
+	for _, p := range points {
+		c := vPrepare(t, dir, d, init)
+		outcome := vCrashRun(t, dir, cc, c, p.kind, p.n)
+		line := fmt.Sprintf("%s kill=%s#%d", caseLine, p.kind, p.n)
+		out.Count("big_runs_" + outcome)
+		if e, err := c.Get(d); err == nil && e.Size == int64(size) {
+			out.Count("crash_full_size_states")
+			b, _ := os.ReadFile(c.GetFile(d))
+			if vDigestOf(b) != d {
+				zeros := 0
+				for i := len(b) - 1; i >= 0 && b[i] == 0; i-- {
+					zeros++
+				}
+				out.L2("crash-present-wrong-content", line, fmt.Sprintf("plain outcome=%s size=%d zero-tail=%d", outcome, size, zeros))
+			}
+		}
+		if outcome == "killed" {
+			err := c.Put(d, bytes.NewReader(content), int64(size))
+			b, _ := os.ReadFile(c.GetFile(d))
+			if err != nil || !bytes.Equal(b, content) {
+				out.L2("crash-retry-not-repaired", line, fmt.Sprintf("err=%v len=%d", err, len(b)))
+			}
+		}
+	}
+}
+
+// vRunBigConc: two good writers of one large blob, seeded interleaving, L2 after every event (no L1: see vRunBig)
+func vRunBigConc(t *testing.T, out *zzverif.Out, base string, idx int, cs uint64) {
+	r := zzverif.NewRng(cs)
+	size := []int{4 << 20, 4<<20 + 1, 1 << 20}[idx%3]
+	content := r.Bytes(size)
+	cc := vConcCase{init: "absent", content: content, big: true}
+	for w := 0; w < 2; w++ {
+		s := vScript{end: "eof", kind: "exact"}
+		for off := 0; off < size; off += 32 << 10 { // io.Copy's buffer: one item per Read
+			s.chunks = append(s.chunks, content[off:min(off+32<<10, size)])
+		}
+		cc.scripts = append(cc.scripts, s)
+	}
+	out.Count(fmt.Sprintf("bigconc_cases_size_%d", size))
+	vRunConc(t, out, base, fmt.Sprintf("bigconc seed=%d idx=%d size=%d", cs, idx, size), &cc, r)
+}
+
 // ---------------------------------------------------------------- concurrent writers
 
 type vGated struct {
@@ -1309,6 +1615,7 @@ type vConcCase struct {
 	content []byte
 	scripts []vScript
 	events  []string // s<i> | d<i>
+	big     bool     // large blob: no state recording, no L1 line
 }
 
 func (cc vConcCase) line() string {
@@ -1421,14 +1728,23 @@ func vRunConc(t *testing.T, out *zzverif.Out, base string, caseLine string, cc *
 		}
 		wait(i)
 		events = append(events, ev)
-		st := vState(c.GetFile(d))
-		states = append(states, st)
+		if !cc.big {
+			states = append(states, vState(c.GetFile(d)))
+		}
 		// L2 at every instant: present with the stored size ⇒ right content
 		if e, err := c.Get(d); err == nil && e.Size == size {
 			out.Count("conc_full_size_states")
 			b, _ := os.ReadFile(c.GetFile(d))
 			if vDigestOf(b) != d {
-				out.L2("concurrent-present-wrong-content", caseLine+" :: "+cc.line(), fmt.Sprintf("%s after-event=%d(%s) file=%s", who, step, ev, zzverif.Hex(b)))
+				if cc.big {
+					zeros := 0
+					for i := len(b) - 1; i >= 0 && b[i] == 0; i-- {
+						zeros++
+					}
+					out.L2("concurrent-present-wrong-content", caseLine, fmt.Sprintf("%s after-event=%d(%s) size=%d zero-tail=%d", who, step, ev, size, zeros))
+				} else {
+					out.L2("concurrent-present-wrong-content", caseLine+" :: "+cc.line(), fmt.Sprintf("%s after-event=%d(%s) file=%s", who, step, ev, zzverif.Hex(b)))
+				}
 			}
 		}
 	}
@@ -1452,10 +1768,16 @@ func vRunConc(t *testing.T, out *zzverif.Out, base string, caseLine string, cc *
 	if acked && !replaying {
 		b, err := os.ReadFile(c.GetFile(d))
 		if err != nil || !bytes.Equal(b, cc.content) {
-			out.L2("concurrent-acked-blob-lost", caseLine+" :: "+cc.line(), fmt.Sprintf("%s final=%s results=%s", who, vState(c.GetFile(d)), strings.Join(results, ",")))
+			if cc.big {
+				out.L2("concurrent-acked-blob-lost", caseLine, fmt.Sprintf("%s final-len=%d results=%s", who, len(b), strings.Join(results, ",")))
+			} else {
+				out.L2("concurrent-acked-blob-lost", caseLine+" :: "+cc.line(), fmt.Sprintf("%s final=%s results=%s", who, vState(c.GetFile(d)), strings.Join(results, ",")))
+			}
 		}
 	}
-	out.Case(cc.line(), strings.Join(states, ",")+" | "+strings.Join(results, ","))
+	if !cc.big {
+		out.Case(cc.line(), strings.Join(states, ",")+" | "+strings.Join(results, ","))
+	}
 	out.Count("cases")
 	out.Count("conc_cases_" + who)
 	out.Add("conc_events", len(events))
@@ -1486,13 +1808,25 @@ func TestVerifC08(t *testing.T) {
 
 	phases := os.Getenv("VERIF_C08_PHASES")
 	if phases == "" {
-		phases = "hist,crash,conc"
+		phases = "hist,crash,conc,big"
 	}
 	if strings.Contains(phases, "hist") {
 		for i, n := 0, zzverif.EnvInt("VERIF_N", 300); i < n; i++ {
 			cs := root.U64()
 			ops := vGenHist(zzverif.NewRng(cs))
-			vRunHist(t, out, base, i, fmt.Sprintf("hist seed=%d", cs)+" :: "+vHistLine(ops), ops)
+			dir := vHistDir(base, i, cs, ops)
+			vRunHist(t, out, base, i, fmt.Sprintf("hist seed=%d dir=%q", cs, filepath.Base(dir))+" :: "+vHistLine(ops), ops, dir)
+		}
+	}
+	if strings.Contains(phases, "big") {
+		if _, err := exec.LookPath("strace"); err != nil {
+			t.Fatal("strace not found: crash points cannot be enumerated")
+		}
+		for i, n := 0, zzverif.EnvInt("VERIF_NBIG", 5); i < n; i++ {
+			vRunBig(t, out, base, i, root.U64())
+		}
+		for i, n := 0, zzverif.EnvInt("VERIF_NBIGCONC", 2); i < n; i++ {
+			vRunBigConc(t, out, base, i, root.U64())
 		}
 	}
 	if strings.Contains(phases, "conc") {
@@ -1530,13 +1864,23 @@ func vReplay(t *testing.T, out *zzverif.Out, base, line string) {
 	switch mode {
 	case "hist":
 		ops := vGenHist(zzverif.NewRng(cs))
-		vRunHist(t, out, base, 0, line, ops)
+		vRunHist(t, out, base, 0, line, ops, vHistDir(base, 0, cs, ops))
 	case "conc":
 		r := zzverif.NewRng(cs)
 		cc := vGenConc(r)
 		vRunConc(t, out, base, fmt.Sprintf("conc seed=%d", cs), &cc, r)
 	case "crash":
 		vRunCrash(t, out, base, fmt.Sprintf("crash seed=%d", cs), vGenCrash(zzverif.NewRng(cs)))
+	case "big", "bigconc":
+		idx := 0
+		if len(head) > 2 && strings.HasPrefix(head[2], "idx=") {
+			idx, _ = strconv.Atoi(head[2][4:])
+		}
+		if mode == "big" {
+			vRunBig(t, out, base, idx, cs)
+		} else {
+			vRunBigConc(t, out, base, idx, cs)
+		}
 	case "crashlink":
 		vRunCrashLink(t, out, base, fmt.Sprintf("crashlink seed=%d", cs), vGenCrashLink(zzverif.NewRng(cs)))
 	default:
